@@ -211,15 +211,15 @@ func parseListing(txt string) ([]aInstr, bool) {
 type encEvent struct {
 	Ev       string   `json:"ev"`
 	Prog     []aInstr `json:"prog"`
-	Nl       []int    `json:"nl"`     // bytes from vm.NewLine
+	Nl       []int    `json:"nl"` // bytes from vm.NewLine
 	HaveAsm  bool     `json:"haveasm"`
-	Asm      []int    `json:"asm"`    // bytes from asm.Parse of the printed source
+	Asm      []int    `json:"asm"` // bytes from asm.Parse of the printed source
 	AsmErr   bool     `json:"asmerr"`
-	Dec      []aInstr `json:"dec"`    // vm.Parse* one by one
+	Dec      []aInstr `json:"dec"` // vm.Parse* one by one
 	Consumed []int    `json:"consumed"`
 	DecOk    bool     `json:"decok"`
 	DecPanic string   `json:"decpanic"`
-	List     []aInstr `json:"list"`   // ToString parsed back
+	List     []aInstr `json:"list"` // ToString parsed back
 	ListOk   bool     `json:"listok"`
 }
 
@@ -417,9 +417,13 @@ func runVerdict(b []byte) (verdict string, tops [][]int) {
 	ca := cache.NewCache()
 	ca.Push()
 	rs := resource.NewMenuResource()
-	rs.WithCodeGetter(func(ctx context.Context, s string) ([]byte, error) { return vm.NewLine(nil, vm.HALT, nil, nil, nil), nil })
+	rs.WithCodeGetter(func(ctx context.Context, s string) ([]byte, error) {
+		return vm.NewLine(nil, vm.HALT, nil, nil, nil), nil
+	})
 	rs.WithEntryFuncGetter(func(ctx context.Context, s string) (resource.EntryFunc, error) {
-		return func(ctx context.Context, sym string, in []byte) (resource.Result, error) { return resource.Result{Content: "x"}, nil }, nil
+		return func(ctx context.Context, sym string, in []byte) (resource.Result, error) {
+			return resource.Result{Content: "x"}, nil
+		}, nil
 	})
 	v := vm.NewVm(st, rs, ca, render.NewSizer(0))
 	// what the VM is about to decode at every instruction boundary (pending code, incl. code fetched by earlier
@@ -474,12 +478,12 @@ func instrLen(b []byte) (n int) {
 }
 
 type decEvent struct {
-	Ev       string `json:"ev"`
-	Bytes    []int  `json:"bytes"`
-	ParseAll string `json:"parseall"`
-	ToString string `json:"tostring"`
-	Run      string `json:"run"`
-	Src      string `json:"src"`
+	Ev       string  `json:"ev"`
+	Bytes    []int   `json:"bytes"`
+	ParseAll string  `json:"parseall"`
+	ToString string  `json:"tostring"`
+	Run      string  `json:"run"`
+	Src      string  `json:"src"`
 	Tops     [][]int `json:"tops"` // pending code at every instruction boundary of the run
 }
 
